@@ -152,7 +152,12 @@ def apply_op(s, op):
         sub.use_cache(False)
     elif op in ("load_A", "load_B"):
         sd = twin_sd(s.cls, op[-1], s.seed)
-        sub.load_state_dict({k: v.to(s.dtype) if v.is_floating_point() else v for k, v in sd.items()})
+        sd = {k: v.to(s.dtype) if v.is_floating_point() else v for k, v in sd.items()}
+        if root is not sub:
+            # a checkpoint is loaded through the enclosing module (children only see _load_from_state_dict)
+            root.load_state_dict({"_transforms.0." + k: v for k, v in sd.items()})
+        else:
+            sub.load_state_dict(sd)
     elif op == "step":
         s.nsteps += 1
         with torch.no_grad():
